@@ -22,7 +22,11 @@ pub fn prop() -> Prop {
                tolerated and counted so the search continues behind them. Non-trivial = pair of the same \
                top-level kind that is not identical.",
         assumptions: &["cmpmodel.rs doc_cmp is the documented order (same oracle as C04)"],
-        subs: vec![Sub { name: "pairs", run, replay: |j| replay_with::<(M, M)>(j, check) }],
+        subs: vec![
+            Sub { name: "pairs", run, replay: |j| replay_with::<(M, M)>(j, check) },
+            // documents nested 10-100 levels deep against small mutations of themselves
+            Sub { name: "deep", run: run_deep, replay: |j| replay_with::<(M, M)>(j, check) },
+        ],
     }
 }
 
@@ -127,4 +131,20 @@ fn run(ctx: &mut Ctx) {
     let p = ctx.tier.pick(TreeParams::quick(), TreeParams::thorough()).with_big(2);
     let strat = (super::c04::arb_triple(p), any::<bool>()).prop_map(|((a, b, c), w)| if w { (a, b) } else { (b, c) });
     run_strategy(ctx, "C14", "pairs", cases, strat, check);
+}
+
+
+pub fn arb_deep_pair() -> BoxedStrategy<(M, M)> {
+    (any::<u8>(), any::<u16>(), proptest::collection::vec(arb_mutation(), 1..3), 0u8..3)
+        .prop_map(|(size_sel, seed, muts, kind)| {
+            let a = big_doc(3, size_sel, seed, 2);
+            let b = apply_mutations(&a, &muts, [MutKind::Any, MutKind::Shrinking, MutKind::Breaking][kind as usize]);
+            (a, b)
+        })
+        .boxed()
+}
+
+fn run_deep(ctx: &mut Ctx) {
+    let cases = ctx.share(ctx.tier.pick(40_000, 600_000));
+    run_strategy(ctx, "C14", "deep", cases, arb_deep_pair(), check);
 }
